@@ -113,7 +113,7 @@ var stateNamePool = []string{"A", "B", "C", "D", "E", "F", "st1", "state two", "
 func genAcr(t *rapid.T, thorough bool) AcrCase {
 	// input trees may already carry node comments (annotations of an earlier run): the states written
 	// on the tree must replace them
-	o := gen.Opts{MinTips: 3, MaxTips: 12, BigTips: 40, Rooted: -1, MaxDeg: 6, Lens: gen.AnyPresence, LenVals: gen.DyadicZ, InnerNames: gen.AnyPresence, Comments: rapid.IntRange(0, 2).Draw(t, "comments") == 0}
+	o := gen.Opts{MinTips: 3, MaxTips: 12, BigTips: 40, Rooted: -1, MaxDeg: 6, Lens: gen.AnyPresence, LenVals: gen.DyadicZ, InnerNames: gen.AnyPresence, Comments: rapid.IntRange(0, 2).Draw(t, "comments") == 0, Wide: true}
 	if thorough {
 		o.BigTips = 150
 	}
@@ -271,6 +271,26 @@ func checkAcr(c AcrCase) error {
 			sort.Strings(parts)
 			if g := strings.Join(parts, "|"); g != got[nm[n]] {
 				return fmt.Errorf("second run on the same tree annotates %q, the first run %q%s", g, got[nm[n]], ctx())
+			}
+		}
+	}
+	if !c.Random {
+		// reconstructing with another algorithm on a copy leaves the annotation of the source alone
+		other := map[string]string{"downpass": "deltran", "deltran": "acctran", "acctran": "downpass", "none": "downpass"}[c.Algo]
+		if _, ok := algos[other]; ok {
+			cl := t.Clone()
+			if _, _, err := acr.ParsimonyAcr(cl, tipState, algos[other], false); err != nil {
+				return fmt.Errorf("ParsimonyAcr (%s) on a clone failed: %v%s", other, err, ctx())
+			}
+			for _, n := range nodesBefore {
+				if len(n.Comments()) != 1 {
+					return fmt.Errorf("after a reconstruction on a clone a node of the source carries %d annotations%s", len(n.Comments()), ctx())
+				}
+				parts := strings.Split(n.Comments()[0], "|")
+				sort.Strings(parts)
+				if g := strings.Join(parts, "|"); g != got[nm[n]] {
+					return fmt.Errorf("a reconstruction (%s) on a clone changed the source's annotation from %q to %q%s", other, got[nm[n]], g, ctx())
+				}
 			}
 		}
 	}
